@@ -3,6 +3,9 @@ package main
 import (
 	"fmt"
 	"net/url"
+	"os"
+	"os/exec"
+	"path/filepath"
 	"strings"
 	"time"
 
@@ -10,7 +13,45 @@ import (
 	"verifharness/vh"
 )
 
-func init() { vh.Register("C06", runC06) }
+func init() {
+	vh.Register("C06", runC06)
+	vh.Register("C06DEEP", runC06Deep)
+}
+
+// runC06Deep is the crash-isolated child: a fatal stack overflow cannot be
+// recovered, so documents nested deeper than 10^5 are decoded in a process of
+// their own. -n is the nesting depth; the outcome goes to <out>/deep.txt.
+func runC06Deep(cfg *vh.Config) error {
+	targets, err := loadTargets()
+	if err != nil {
+		return err
+	}
+	var nested, full *target
+	for _, t := range targets {
+		switch t.Name {
+		case "env_nested":
+			nested = t
+		case "env_full":
+			full = t
+		}
+	}
+	d := cfg.N
+	var sb strings.Builder
+	for _, c := range []struct {
+		name string
+		t    *target
+		doc  string
+	}{
+		{"recursive type", nested, strings.Repeat(`{"type":{"de3":`, d) + `{}` + strings.Repeat(`}}`, d)},
+		{"recursive type in array", full, `{"nestedExposedOneofs":[` + strings.Repeat(`{"type":{"de3":`, d) + `{}` + strings.Repeat(`}}`, d) + `]}`},
+		{"array nesting", full, `{"rString":` + strings.Repeat(`[`, d) + strings.Repeat(`]`, d) + `}`},
+		{"any value", full, `{"j5any":{"!type":"x","value":` + strings.Repeat(`[`, d) + strings.Repeat(`]`, d) + `}}`},
+	} {
+		o := decodeJSON(c.t, []byte(c.doc))
+		fmt.Fprintf(&sb, "%s\t%s\t%s\t%s\n", c.name, o.Kind, o.Elapsed, o.Panic)
+	}
+	return os.WriteFile(filepath.Join(cfg.Out, "deep.txt"), []byte(sb.String()), 0o644)
+}
 
 // inputClass names the generator that produced an input; part of failure signatures.
 type c06input struct {
@@ -23,10 +64,12 @@ type c06input struct {
 func runC06(cfg *vh.Config) error {
 	res := vh.NewResult("C06", cfg.Seed)
 	res.Rule = "JSON: valid generated documents in varied spellings; truncation at every byte; null at every value position; byte-level edits; duplicate members; huge numbers; wrong JSON type at a random position; hand-written shapes; random bytes; nesting 10^3..10^5 on the recursive type and in arrays/any values; query: generated url.Values with empty keys, dotted paths into every field kind, repeats. non-trivial = distinct input other than the empty input"
+	tStart := time.Now()
 	targets, err := loadTargets()
 	if err != nil {
 		return err
 	}
+	fmt.Fprintf(os.Stderr, "c06 loadTargets %s\n", time.Since(tStart))
 	em := &emitter{cf: &vh.CasesFile{Header: envHeader(targets), Type: "deccase", Check: "dec_check"}, res: res, perShd: 250}
 	distinct := vh.Distinct{}
 	r := cfg.R
@@ -66,7 +109,7 @@ func runC06(cfg *vh.Config) error {
 		`{"sBool":"true"}`, `{"sBool":1}`, `{"sBool":null}`, `{"oBool":false}`, `{"oString":""}`, `{"oFloat":0}`,
 		`{"sBytes":"AQID"}`, `{"sBytes":"AQI"}`, `{"sBytes":"AQI="}`, `{"sBytes":"AQ=="}`, `{"sBytes":"AQ="}`, `{"sBytes":"A"}`, `{"sBytes":"A==="}`, `{"sBytes":"-_-_"}`, `{"sBytes":"AQ\nID"}`, `{"sBytes":"AQID\n"}`, `{"sBytes":"AQ==\n"}`, `{"sBytes":"AQ=\n="}`, `{"sBytes":"AQ==AQ=="}`, `{"sBytes":"****"}`, `{"sBytes":""}`, `{"sBytes":"="}`, `{"sBytes":"AQID="}`, `{"sBytes":1}`, `{"sBytes":"AR=="}`,
 		`{"date":"2024-01-02"}`, `{"date":"2024-13-45"}`, `{"date":"2024-1-2"}`, `{"date":"+2024-+1-+2"}`, `{"date":"-2024-01-02"}`, `{"date":"2024-01"}`, `{"date":"2024-01-02-03"}`, `{"date":"4294967297-1-1"}`, `{"date":"99999999999999999999-1-1"}`, `{"date":"a-b-c"}`, `{"date":""}`, `{"date":"0-0-0"}`, `{"date":20240102}`,
-		`{"decimal":"1.50"}`, `{"decimal":1.50}`, `{"decimal":"abc"}`, `{"decimal":"1e3"}`, `{"decimal":""}`, `{"decimal":"1.2.3"}`, `{"decimal":"-.5"}`, `{"decimal":"1e99999999999"}`,
+		`{"decimal":"1.50"}`, `{"decimal":1.50}`, `{"decimal":"abc"}`, `{"decimal":"1e3"}`, `{"decimal":""}`, `{"decimal":"1.2.3"}`, `{"decimal":"-.5"}`, `{"decimal":"1e99999999999"}`, `{"decimal":"1e7000000"}`, `{"decimal":"1e-7000000"}`, `{"decimal":"1e1000"}`, `{"decimal":"1e1001"}`, `{"decimal":1e-1001}`, `{"rDecimal":["1e400000000"]}`,
 		`{"ts":"2020-01-01T00:00:00Z"}`, `{"ts":"2020-01-01T10:00:00+10:00"}`, `{"ts":"2020-01-01T00:00:00.123456789Z"}`, `{"ts":"2020-01-01 00:00:00Z"}`, `{"ts":"2020-02-30T00:00:00Z"}`, `{"ts":"2020-01-01T24:00:00Z"}`, `{"ts":"2020-01-01T00:00:60Z"}`, `{"ts":"2020-01-01t00:00:00z"}`, `{"ts":"2020-01-01T00:00:00"}`, `{"ts":"2020-01-01T00:00:00,5Z"}`, `{"ts":"0000-01-01T00:00:00Z"}`, `{"ts":"10000-01-01T00:00:00Z"}`, `{"ts":1577836800}`, `{"ts":""}`,
 		`{"keyString":null}`, `{"keyString":1}`, `{"unknown":1}`, `{"sstring":"a"}`, `{"s_string":"a"}`, `{"":1}`, `{"sString":"\ud800"}`, `{"sString":"\udc00\ud800"}`, `{"sString":"😀"}`, `{"sString":"\ud83dA"}`, `{"sString":"é\u0000"}`, "{\"sString\":\"\xff\xfe\"}", "{\"sString\":\"\xed\xa0\x80\"}", "{\"sString\":\"a\x01\"}", `{"sString":"\x"}`, `{"sString":"\u12"}`,
 		"\xef\xbb\xbf{}", `{"sString" "a"}`, `{"sString":"a" "oString":"b"}`, `{"sString"::"a"}`, `{"rString":["a" "b"]}`, `{"rString":["a",,"b"]}`, `{"rString":["a",]}`, `{"rString":[,"a"]}`, `{"rString":["a"}`, `{"rString":{"a":"b"}}`, `{"sBar":["a"]}`, `{"rBars":[[]]}`, `{"rBars":[{}]}`, `{"rBars":{}}`, `{"rBars":[null]}`, `{"rBars":[{"barId":null}]}`,
@@ -82,10 +125,13 @@ func runC06(cfg *vh.Config) error {
 	}
 
 	// ---- generated valid documents and their mutations
-	nValid := cfg.Scale(90, 2500)
+	nValid := cfg.Scale(60, 2500)
 	for i := 0; i < nValid; i++ {
 		t := full
-		if r.Chance(25) {
+		switch {
+		case r.Chance(45):
+			t = byName["env_wide"]
+		case r.Chance(30):
 			t = vh.Pick(r, targets)
 		}
 		g := codecgen.NewGen(r, t.Env)
@@ -140,7 +186,11 @@ func runC06(cfg *vh.Config) error {
 	for _, d := range depths {
 		model := d <= 100
 		add("deep nesting on recursive type", nested, strings.Repeat(`{"type":{"de3":`, d)+`{}`+strings.Repeat(`}}`, d), model)
-		add("deep nesting on recursive type, unclosed", nested, strings.Repeat(`{"type":{"de3":`, d), model)
+		if d <= 1000 || (d <= 10000 && cfg.Tier == "thorough") {
+			// the error path is quadratic in the depth (fieldError.parent copies the path at every level):
+			// 10^4 levels take seconds; bounded by the input size, but not linearly
+			add("deep nesting on recursive type, unclosed", nested, strings.Repeat(`{"type":{"de3":`, d), model)
+		}
 		add("deep nesting on recursive type", full, `{"nestedExposedOneofs":[`+strings.Repeat(`{"type":{"de3":`, d)+`{}`+strings.Repeat(`}}`, d)+`]}`, model)
 		add("deep array nesting", full, `{"rString":`+strings.Repeat(`[`, d)+strings.Repeat(`]`, d)+`}`, model)
 		add("deep object nesting", full, `{"sBar":`+strings.Repeat(`{"barId":`, d)+`1`+strings.Repeat(`}`, d)+`}`, model)
@@ -152,6 +202,9 @@ func runC06(cfg *vh.Config) error {
 	add("long array", full, `{"rString":[`+strings.Repeat(`"a",`, 20000)+`"a"]}`, false)
 	add("many duplicate keys", full, `{`+strings.Repeat(`"sString":null,`, 20000)+`"sString":"x"}`, false)
 
+	fmt.Fprintf(os.Stderr, "c06 generation done %s\n", time.Since(tStart))
+	res.Notes = append(res.Notes, fmt.Sprintf("stage: generation done (%d inputs)", len(inputs)))
+	t0 := time.Now()
 	// ---- run
 	timings := map[string]time.Duration{}
 	for _, in := range inputs {
@@ -186,8 +239,45 @@ func runC06(cfg *vh.Config) error {
 		}
 		em.caseNo++
 	}
+	res.Notes = append(res.Notes, fmt.Sprintf("stage: json run %s", time.Since(t0)))
 	for k, v := range timings {
 		res.Notes = append(res.Notes, fmt.Sprintf("max wall time, %s: %s", k, v))
+	}
+
+	// ---- nesting beyond 10^5 in a child process (a fatal stack overflow kills the process, recover() cannot see it)
+	for _, d := range []int{1000000} {
+		dir := filepath.Join(cfg.Out, fmt.Sprintf("deep-%d", d))
+		os.MkdirAll(dir, 0o755)
+		cmd := exec.Command(os.Args[0], "-prop", "C06DEEP", "-n", fmt.Sprint(d), "-out", dir)
+		start := time.Now()
+		outb, err := cmd.CombinedOutput()
+		res.Count("json:deep nesting in a child process")
+		input := map[string]any{"class": "nesting depth in a child process", "depth": d, "documents": "recursive type NestedExposed, recursive type inside an array, array brackets, any value"}
+		body, _ := os.ReadFile(filepath.Join(dir, "deep.txt"))
+		if err != nil {
+			msg := string(outb)
+			if i := strings.Index(msg, "fatal error"); i >= 0 {
+				msg = msg[i:]
+			}
+			if len(msg) > 300 {
+				msg = msg[:300]
+			}
+			cls := "child process died"
+			if strings.Contains(string(outb), "stack overflow") {
+				cls = "fatal stack overflow"
+			}
+			res.Fail(vh.Failure{Case: em.caseNo, Stream: "json", Sig: "C06 JSONToProto kills the process on a deeply nested document: " + cls, Clause: "never recurses without bound / exhausts the stack", Input: input, Got: msg})
+		} else {
+			for _, line := range strings.Split(strings.TrimSpace(string(body)), "\n") {
+				f := strings.Split(line, "\t")
+				if len(f) >= 2 && (f[1] == "panic" || f[1] == "timeout") {
+					res.Fail(vh.Failure{Case: em.caseNo, Stream: "json", Sig: "C06 JSONToProto " + f[1] + " on a deeply nested document (" + f[0] + ")", Clause: "decoding never panics / returns in bounded time", Input: input, Got: line})
+				}
+			}
+			res.Notes = append(res.Notes, fmt.Sprintf("nesting depth %d in a child process (%s): %s", d, time.Since(start).Round(time.Millisecond), strings.ReplaceAll(strings.TrimSpace(string(body)), "\n", "; ")))
+		}
+		os.RemoveAll(dir)
+		em.caseNo++
 	}
 
 	// ---- lexer stream: the tokenizer model against encoding/json on the same documents
@@ -202,16 +292,17 @@ func runC06(cfg *vh.Config) error {
 		res.Count("lex")
 	}
 
+	res.Notes = append(res.Notes, fmt.Sprintf("stage: after lex %s", time.Since(t0)))
 	// ---- query stream (implementation only for now: crash / deadline oracle)
 	nQuery := cfg.Scale(400, 20000)
 	for i := 0; i < nQuery; i++ {
 		t := vh.Pick(r, targets)
 		q := genQuery(r, t)
 		o := decodeQuery(t, q)
-		distinct.Add("q:" + t.Name + q.Encode())
+		distinct.Add("q:" + t.Name + fmt.Sprintf("%q", map[string][]string(q)))
 		res.Count("query")
 		res.Count("query-outcome:" + o.Kind)
-		input := map[string]any{"target": t.Env.Root, "query": q.Encode()}
+		input := map[string]any{"target": t.Env.Root, "query": fmt.Sprintf("%q", map[string][]string(q))}
 		switch o.Kind {
 		case "panic":
 			res.Fail(vh.Failure{Case: em.caseNo, Stream: "query", Sig: fmt.Sprintf("C06 QueryToProto panics in %s: %s", o.Site, panicClass(o.Panic)), Clause: "query decoding never panics", Input: input, Got: o.Panic})
@@ -224,9 +315,12 @@ func runC06(cfg *vh.Config) error {
 		em.caseNo++
 	}
 
+	res.Notes = append(res.Notes, fmt.Sprintf("stage: after query %s", time.Since(t0)))
 	res.Evaluations = em.caseNo
 	res.Distinct = len(distinct) - 1
-	return em.finish(cfg)
+	err = em.finish(cfg)
+	fmt.Fprintf(os.Stderr, "c06 stages: total %s\n", time.Since(t0))
+	return err
 }
 
 // genQuery draws url.Values: property names of the target (camel and snake),
@@ -253,6 +347,10 @@ func genQuery(r *vh.Rand, t *target) url.Values {
 				break
 			}
 			key = strings.Join(parts, ".")
+		}
+		if r.Chance(6) {
+			q[key] = []string{} // a key with no values at all
+			continue
 		}
 		for k := r.Range(1, 3); k > 0; k-- {
 			q.Add(key, vh.Pick(r, values))
